@@ -101,6 +101,17 @@ func (sm *SealManager) Reset() {
 	sm.rotationConfigByNamespace = map[string]*rotationConfig{}
 }
 
+// resetRotations drops the root and recovery key rotations in progress in all
+// namespaces, together with the key shares and the verification keys they
+// hold. A node that stops being the active one must not carry a ceremony over
+// to the next time it is active.
+func (sm *SealManager) resetRotations() {
+	sm.lock.Lock()
+	defer sm.lock.Unlock()
+
+	sm.rotationConfigByNamespace = map[string]*rotationConfig{}
+}
+
 // SetSeal creates a seal with provided config and sets it as provided namespace seal;
 // Initializes seal, creating security barrier and persisting seal config.
 func (sm *SealManager) SetSeal(ctx context.Context, sealConfig *SealConfig, ns *namespace.Namespace, writeToStorage bool) error {
